@@ -98,7 +98,9 @@ def oracle(ctx, seeds=None):
         if not ok:
             res.fail(name + ':array-raised', str(arr), dict(limiter=name))
         else:
-            sc = np.array([float(f(a, b)) for a, b in pairs[:200]])
+            ok, sc = impl.guarded(lambda: np.array([float(f(a, b)) for a, b in pairs[:200]]))
+            if not ok:
+                continue     # (the raising pair is already reported by the scalar sweep above)
             # element-wise semantics: same value as the scalar call up to a few ulps (numpy evaluates a**2 on
             # python floats through pow() and on arrays through multiplication: they may differ in the last bit)
             tolv = 8 * EPS * np.maximum(np.abs(A), np.abs(B))
